@@ -22,7 +22,7 @@ LEVEL_TEXT = ('Coq theorems over an executable Gallina model of schedule.Schedul
               'for all histories, all event bodies of the action language, all clocks and all heap tie-breaks: every scheduling is at any time in exactly one '
               'of pending/executed/removed (exactly once, removed never run), executed only when due and minimal among pending, a completed run() leaves nothing due '
               'whatever the events raise, events/heap stay consistent under re-entrant mutation, the periodic wrapper re-adds itself even when f raises; '
-              'registered arguments are passed on the domain "no reschedule dropped arguments" with a refuting witness outside it (finding F17). '
+              'every executed or pending entry carries the arguments it was registered with, also across rescheduleEvent (full statement since the fix of C18.F17). '
               'The model is tied to the source by a fail-closed AST table and a differential run against the real Schedule on every check.')
 LEVEL_NOTE = ('Trusted: Coq kernel, gen_tables.py, extraction + OCaml driver, the Python harness; heapq enters as an oracle whose contract '
               '(pop returns a minimal-time entry) is checked on every differential case; Lock/threads not modelled; Python code is modelled, not verified.')
@@ -54,13 +54,13 @@ class Tracker:
         self.byname = {}
         self.running = {}       # periodic regs being executed -> record
         self.immediate = {}     # periodic regs added with now=True, before their direct call
-        self.removed, self.done, self.tainted, self.unremovable = set(), set(), set(), set()
-        self.failures = []      # (focus, text)
+        self.removed, self.done, self.unremovable = set(), set(), set()
+        self.failures = []      # texts
         self.unspec = None
 
-    def fail(self, text, focus='other'):
+    def fail(self, text):
         if not self.unspec:
-            self.failures.append((focus, text))
+            self.failures.append(text)
 
     def name_taken(self, reg, name):
         if name in [r['name'] for k, r in self.running.items() if k != reg]:
@@ -98,10 +98,7 @@ class Tracker:
             if self.auto_periodic_pending():
                 self.unspec = 'auto-named periodic event addressed by its current counter name'
             return
-        p = self.pending[reg]
-        p['due'] = t
-        if not p['per'] and (p['args'] or p['kw']):
-            self.tainted.add(reg)
+        self.pending[reg]['due'] = t          # same event, same arguments, new time
 
     def call(self, reg, a, kw, clock):
         if reg in self.immediate:
@@ -126,8 +123,7 @@ class Tracker:
         if others and min(others) < p['due']:
             self.fail('event reg %d due %d ran while an event due %d was pending' % (reg, p['due'], min(others)))
         if (list(a), kw) != (p['args'], p['kw']):
-            self.fail('event reg %d ran with args %r %r, registered with %r %r' % (reg, list(a), kw, p['args'], p['kw']),
-                      'resched-args' if reg in self.tainted else 'other')
+            self.fail('event reg %d ran with args %r %r, registered with %r %r' % (reg, list(a), kw, p['args'], p['kw']))
         if p['per']:
             self.running[reg] = p
         else:
@@ -439,7 +435,7 @@ def g_history(rng, hostile):
 
 A = lambda **k: k
 CORPUS = [
-    # F17: reschedule drops the arguments (fixed arity -> TypeError swallowed; variadic -> called with nothing)
+    # witnesses of C18.F17 (fixed): reschedule must keep args/kwargs (fixed arity: TypeError swallowed; variadic: called with nothing)
     [['act', ['add', 1, 1, ['nop'], 1, ['n', 0], [7], []]], ['act', ['rs', ['n', 0], 2]], ['adv', 5], ['run']],
     [['act', ['add', 1, None, ['nop'], 1, ['n', 0], [7], [[1, 4]]]], ['act', ['rs', ['n', 0], 2]], ['adv', 5], ['run']],
     # ties, past times, raising event between two others
@@ -463,27 +459,13 @@ CORPUS = [
 
 
 # ---------------------------------------------------------------- check
-def taint_possible(ops):
-    s = repr(ops)
-    return "'rs'" in s
-
-
-CLASSES = {'resched_drops_args': lambda inp: inp.get('focus') == 'resched-args' and taint_possible(inp['ops'])}
+CLASSES = {}      # no known finding: C18.F17 (rescheduleEvent dropped args/kwargs) is fixed; its witnesses lead CORPUS
 
 
 def judge(ctx, ops, impl):
-    """direct oracle: report the tracker's failures"""
-    seen = set()
-    for focus, text in impl['failures']:
-        if focus in seen:
-            continue
-        seen.add(focus)
-        if focus == 'resched-args':
-            # the runner keeps at most 2000 failures: do not let the known class crowd out anything else
-            ctx.known_reported = getattr(ctx, 'known_reported', 0) + 1
-            if ctx.known_reported > 300:
-                continue
-        ctx.fail({'ops': ops, 'focus': focus}, text)
+    """direct oracle: report the tracker's first failure"""
+    if impl['failures']:
+        ctx.fail({'ops': ops}, impl['failures'][0])
 
 
 def compare(ctx, ops, impl, mout):
@@ -542,16 +524,11 @@ def has_ties(impl):
 
 def replay(ctx, inp):
     impl = run_impl(inp['ops'])
-    if impl is None:
+    if impl is None or not impl['failures']:
         return None
-    want = inp.get('focus')
-    for focus, text in impl['failures']:
-        if want is None or want == focus:
-            return text
-    return None
+    return impl['failures'][0]
 
 
 def shrink(ctx, inp):
-    focus = inp.get('focus')
-    small = shrink_seq(inp['ops'], lambda ops: replay(ctx, {'ops': ops, 'focus': focus}) is not None)
-    return {'ops': small, 'focus': focus} if focus else {'ops': small}
+    small = shrink_seq(inp['ops'], lambda ops: replay(ctx, {'ops': ops}) is not None)
+    return {'ops': small}
